@@ -1185,9 +1185,13 @@ impl ObjectFile {
         let block_map = block_map.into_iter()
             .map(|(start, ObjBlock { words, .. })| (start, words))
             .collect();
+        // Even without debug symbols, a file that declares external labels has to keep its
+        // label and relocation tables: without them the externals could neither be detected
+        // on load nor be resolved by linking.
+        let has_externals = sym.label_map.values().any(|data| data.external);
         Ok(Self {
             block_map,
-            sym: debug.then_some(sym),
+            sym: (debug || has_externals).then_some(sym),
         })
     }
 
